@@ -41,6 +41,8 @@ pub struct Graph {
     pub edges: Vec<(usize, usize)>,
     pub prim_destructive: Vec<usize>,
     pub raw_statics: Vec<String>,
+    pub raw_files_scanned: usize,
+    pub raw_items_scanned: usize,
     pub exp_statics: Vec<StaticItem>,
     pub makes_arena: Vec<usize>,
     pub tags: Vec<&'static str>,
@@ -896,7 +898,39 @@ pub fn extract(c: &Crate, items: &Items, raw: &Raw) -> Graph {
     let callback_cert = close(cb_roots, &cb_edges);
     let rev: Vec<(usize, usize)> = edges.iter().map(|(a, g)| (*g, *a)).collect();
     let dc: Vec<usize> = (0..b.fns.len()).filter(|i| tags[*i] == ".doCollection").collect();
-    let collector_cert = close(dc, &rev);
+    let collector_cert = close(dc.clone(), &rev);
+    // Private helpers of the driver: a function that is not client-callable, from which the driver
+    // is reachable (by the over-approximated name resolution: e.g. `metrics.finish_cycle()` also
+    // resolves to `Arena::finish_cycle`), and whose every caller is the driver or another such helper
+    // — it only ever runs as part of a driver call.  Greatest such set below `collector_cert`;
+    // re-checked by the Lean side (`entersOnlyVia`).
+    {
+        let mut parts: BTreeSet<usize> =
+            collector_cert.iter().copied().filter(|i| tags[*i] == ".none" && !b.fns[*i].client_callable && !b.fns[*i].is_drop_impl).collect();
+        loop {
+            let bad: Vec<usize> = parts
+                .iter()
+                .copied()
+                .filter(|i| {
+                    let mut callers = edges.iter().filter(|(_, g)| g == i).map(|(a, _)| *a).peekable();
+                    callers.peek().is_none() || callers.any(|a| !(dc.contains(&a) || parts.contains(&a)))
+                })
+                .collect();
+            if bad.is_empty() {
+                break;
+            }
+            for x in bad {
+                parts.remove(&x);
+            }
+        }
+        // every helper must be reached from the driver proper (a cycle of helpers calling only one another is dead code, leave it untagged)
+        let from_dc: BTreeSet<usize> = close(dc.clone(), &edges).into_iter().collect();
+        for i in parts {
+            if from_dc.contains(&i) {
+                tags[i] = ".driverPart";
+            }
+        }
+    }
     Graph {
         makes_arena,
         tags,
@@ -905,6 +939,8 @@ pub fn extract(c: &Crate, items: &Items, raw: &Raw) -> Graph {
         fns: b.fns,
         edges,
         prim_destructive: prim.into_iter().collect(),
+        raw_files_scanned: raw.files.len(),
+        raw_items_scanned: raw.files.iter().map(|f| f.ast.items.len()).sum(),
         raw_statics,
         exp_statics,
         fresh_roots,
@@ -986,8 +1022,10 @@ impl Graph {
             lean_nat_list(&self.prim_destructive)
         ));
         s.push_str(&format!(
-            "/-- `static` items, `thread_local!`, `lazy_static!` in the raw source files. -/\ndef rawStatics : List String := {}\n\n",
-            lean_list(&self.raw_statics.iter().map(|x| lean_str(x)).collect::<Vec<_>>())
+            "/-- `static` items, `thread_local!`, `lazy_static!` in the raw source files. -/\ndef rawStatics : List String := {}\n\n/-- What that scan visited: source files under src/, top-level items in them. -/\ndef rawFilesScanned : Nat := {}\ndef rawItemsScanned : Nat := {}\n\n",
+            lean_list(&self.raw_statics.iter().map(|x| lean_str(x)).collect::<Vec<_>>()),
+            self.raw_files_scanned,
+            self.raw_items_scanned
         ));
         s.push_str("/-- `static` items of the macro-expanded crate (all features). -/\ndef expandedStatics : List StaticInfo := [\n");
         let sv: Vec<String> = self
